@@ -63,6 +63,11 @@ enum Ty {
     I64,
     Str,
     Bytes,
+    // narrow integers: tuple_key2 only (builders `u8/u16/i8/i16` and the parsers of the same names)
+    U8,
+    U16,
+    I8,
+    I16,
 }
 
 impl Ty {
@@ -75,7 +80,14 @@ impl Ty {
             Ty::I64 => "i64",
             Ty::Str => "string",
             Ty::Bytes => "bytes",
+            Ty::U8 => "u8",
+            Ty::U16 => "u16",
+            Ty::I8 => "i8",
+            Ty::I16 => "i16",
         }
+    }
+    fn narrow(self) -> bool {
+        matches!(self, Ty::U8 | Ty::U16 | Ty::I8 | Ty::I16)
     }
 }
 
@@ -88,6 +100,10 @@ enum Val {
     I64(i64),
     Str(String),
     Bytes(Vec<u8>),
+    U8(u8),
+    U16(u16),
+    I8(i8),
+    I16(i16),
 }
 
 impl Val {
@@ -100,6 +116,10 @@ impl Val {
             Val::I64(_) => Ty::I64,
             Val::Str(_) => Ty::Str,
             Val::Bytes(_) => Ty::Bytes,
+            Val::U8(_) => Ty::U8,
+            Val::U16(_) => Ty::U16,
+            Val::I8(_) => Ty::I8,
+            Val::I16(_) => Ty::I16,
         }
     }
     fn int(&self) -> Option<i128> {
@@ -108,6 +128,10 @@ impl Val {
             Val::U64(x) => Some(*x as i128),
             Val::I32(x) => Some(*x as i128),
             Val::I64(x) => Some(*x as i128),
+            Val::U8(x) => Some(*x as i128),
+            Val::U16(x) => Some(*x as i128),
+            Val::I8(x) => Some(*x as i128),
+            Val::I16(x) => Some(*x as i128),
             _ => None,
         }
     }
@@ -142,6 +166,10 @@ fn cmp_val(a: &Val, b: &Val) -> Ordering {
         (Val::I64(x), Val::I64(y)) => x.cmp(y),
         (Val::Str(x), Val::Str(y)) => x.as_bytes().cmp(y.as_bytes()),
         (Val::Bytes(x), Val::Bytes(y)) => x.cmp(y),
+        (Val::U8(x), Val::U8(y)) => x.cmp(y),
+        (Val::U16(x), Val::U16(y)) => x.cmp(y),
+        (Val::I8(x), Val::I8(y)) => x.cmp(y),
+        (Val::I16(x), Val::I16(y)) => x.cmp(y),
         _ => unreachable!("conformance is checked before comparing"),
     }
 }
@@ -164,7 +192,7 @@ fn conforms(fmt: Fmt, schema: &[Col], t: &[Val]) -> bool {
     for c in schema {
         match fmt {
             Fmt::Tk1 => {
-                if c.ty == Ty::Bytes || FieldNumber::new(c.field).is_err() {
+                if c.ty == Ty::Bytes || c.ty.narrow() || FieldNumber::new(c.field).is_err() {
                     return false;
                 }
             }
@@ -212,11 +240,13 @@ fn tk1_kdt(ty: Ty) -> tuple_key::KeyDataType {
         Ty::I32 => tuple_key::KeyDataType::sfixed32,
         Ty::I64 => tuple_key::KeyDataType::sfixed64,
         Ty::Str | Ty::Bytes => tuple_key::KeyDataType::string,
+        Ty::U8 | Ty::U16 | Ty::I8 | Ty::I16 => unreachable!("tuple_key has no narrow integer elements"),
     }
 }
 
-fn tk1_encode(schema: &[Col], t: &[Val]) -> tuple_key::TupleKey {
-    let mut k = tuple_key::TupleKey::default();
+/// Extend `k` in place with the elements `t` of the columns `schema` (the element-wise extension
+/// API of tuple_key: `extend` / `extend_with_key` on an existing key).
+fn tk1_extend(k: &mut tuple_key::TupleKey, schema: &[Col], t: &[Val]) {
     for (c, v) in schema.iter().zip(t.iter()) {
         let f = FieldNumber::must(c.field);
         let d = tk1_dir(c.desc);
@@ -230,8 +260,14 @@ fn tk1_encode(schema: &[Col], t: &[Val]) -> tuple_key::TupleKey {
             Val::I64(x) => k.extend_with_key(f, *x, d),
             Val::Str(x) => k.extend_with_key(f, x.clone(), d),
             Val::Bytes(_) => unreachable!("tuple_key has no bytes element"),
+            Val::U8(_) | Val::U16(_) | Val::I8(_) | Val::I16(_) => unreachable!("tuple_key has no narrow integer elements"),
         }
     }
+}
+
+fn tk1_encode(schema: &[Col], t: &[Val]) -> tuple_key::TupleKey {
+    let mut k = tuple_key::TupleKey::default();
+    tk1_extend(&mut k, schema, t);
     k
 }
 
@@ -262,6 +298,7 @@ fn tk1_decode(schema: &[Col], key: &tuple_key::TupleKey, check_peek: bool) -> (V
             Ty::I32 => p.parse_next_with_key::<i32>(f, d).map(Val::I32),
             Ty::I64 => p.parse_next_with_key::<i64>(f, d).map(Val::I64),
             Ty::Str | Ty::Bytes => p.parse_next_with_key::<String>(f, d).map(Val::Str),
+            Ty::U8 | Ty::U16 | Ty::I8 | Ty::I16 => unreachable!("tuple_key has no narrow integer elements"),
         };
         match r {
             Ok(v) => out.push(v),
@@ -275,8 +312,8 @@ fn tk1_decode(schema: &[Col], key: &tuple_key::TupleKey, check_peek: bool) -> (V
     }
 }
 
-fn tk2_encode(t: &[Val]) -> Vec<u8> {
-    let mut b = tuple_key2::TupleKey::builder();
+/// Append the elements `t` to a tuple_key2 builder.
+fn tk2_push(mut b: tuple_key2::TupleKeyBuilder, t: &[Val]) -> tuple_key2::TupleKeyBuilder {
     for v in t {
         b = match v {
             Val::Unit => b.unit(),
@@ -286,9 +323,17 @@ fn tk2_encode(t: &[Val]) -> Vec<u8> {
             Val::I64(x) => b.i64(*x),
             Val::Str(x) => b.string(x),
             Val::Bytes(x) => b.bytes(x),
+            Val::U8(x) => b.u8(*x),
+            Val::U16(x) => b.u16(*x),
+            Val::I8(x) => b.i8(*x),
+            Val::I16(x) => b.i16(*x),
         };
     }
-    b.build().into_bytes()
+    b
+}
+
+fn tk2_encode(t: &[Val]) -> Vec<u8> {
+    tk2_push(tuple_key2::TupleKey::builder(), t).build().into_bytes()
 }
 
 /// Parse `bytes` with the type sequence of `schema`: values parsed, result (including `finish`),
@@ -307,6 +352,10 @@ fn tk2_decode(schema: &[Col], bytes: &[u8]) -> (Vec<Val>, Result<(), tuple_key2:
             Ty::I64 => p.i64().map(Val::I64),
             Ty::Str => p.string().map(Val::Str),
             Ty::Bytes => p.bytes().map(Val::Bytes),
+            Ty::U8 => p.u8().map(Val::U8),
+            Ty::U16 => p.u16().map(Val::U16),
+            Ty::I8 => p.i8().map(Val::I8),
+            Ty::I16 => p.i16().map(Val::I16),
         };
         match r {
             Ok(v) => {
@@ -398,6 +447,10 @@ fn int_range(ty: Ty) -> (i128, i128) {
         Ty::U64 => (0, u64::MAX as i128),
         Ty::I32 => (i32::MIN as i128, i32::MAX as i128),
         Ty::I64 => (i64::MIN as i128, i64::MAX as i128),
+        Ty::U8 => (0, u8::MAX as i128),
+        Ty::U16 => (0, u16::MAX as i128),
+        Ty::I8 => (i8::MIN as i128, i8::MAX as i128),
+        Ty::I16 => (i16::MIN as i128, i16::MAX as i128),
         _ => (0, 0),
     }
 }
@@ -408,6 +461,10 @@ fn int_val(ty: Ty, x: i128) -> Val {
         Ty::U64 => Val::U64(x as u64),
         Ty::I32 => Val::I32(x as i32),
         Ty::I64 => Val::I64(x as i64),
+        Ty::U8 => Val::U8(x as u8),
+        Ty::U16 => Val::U16(x as u16),
+        Ty::I8 => Val::I8(x as i8),
+        Ty::I16 => Val::I16(x as i16),
         _ => Val::Unit,
     }
 }
@@ -450,7 +507,12 @@ fn int_strategy(ty: Ty) -> BoxedStrategy<i128> {
 /// A pair of integers of one type, correlated by construction.
 fn int_pair(ty: Ty) -> BoxedStrategy<(Val, Val)> {
     let (lo, hi) = int_range(ty);
-    let width = if matches!(ty, Ty::U32 | Ty::I32) { 32 } else { 64 };
+    let width = match ty {
+        Ty::U8 | Ty::I8 => 8,
+        Ty::U16 | Ty::I16 => 16,
+        Ty::U32 | Ty::I32 => 32,
+        _ => 64,
+    };
     (int_strategy(ty), int_strategy(ty), 0u8..12, 0u32..64)
         .prop_map(move |(x, z, rel, bit)| {
             let y = match rel {
@@ -541,7 +603,7 @@ fn seq_pair<T: Clone + std::fmt::Debug + 'static>(unit: BoxedStrategy<T>) -> Box
 fn val_pair(ty: Ty) -> BoxedStrategy<(Val, Val)> {
     match ty {
         Ty::Unit => Just((Val::Unit, Val::Unit)).boxed(),
-        Ty::U32 | Ty::U64 | Ty::I32 | Ty::I64 => int_pair(ty),
+        Ty::U32 | Ty::U64 | Ty::I32 | Ty::I64 | Ty::U8 | Ty::U16 | Ty::I8 | Ty::I16 => int_pair(ty),
         Ty::Str => seq_pair(char_unit())
             .prop_map(|(a, b)| (Val::Str(a.into_iter().collect()), Val::Str(b.into_iter().collect())))
             .boxed(),
@@ -579,6 +641,10 @@ fn ty_strategy(fmt: Fmt) -> BoxedStrategy<Ty> {
             2 => Just(Ty::I64),
             3 => Just(Ty::Str),
             4 => Just(Ty::Bytes),
+            1 => Just(Ty::U8),
+            1 => Just(Ty::U16),
+            1 => Just(Ty::I8),
+            1 => Just(Ty::I16),
         ]
         .boxed(),
     }
@@ -832,6 +898,87 @@ impl Property for Order {
     }
 }
 
+/// `enc(full[..m])` obtained by EXTENDING the already-built key of `full[..n]` through the crates'
+/// own extension APIs instead of encoding the longer tuple from scratch:
+///   tuple_key   `TupleKey::append` (whole suffix, and one element at a time, also onto a key
+///               re-wrapped with `From<&[u8]>`), and `extend` / `extend_with_key` on the existing key;
+///   tuple_key2  `TupleKeyBuilder::{extend, tuple_key}`, `TupleKey::builder_with_capacity` /
+///               `TupleKeyBuilder::with_capacity`, `finish`, `as_bytes`, `From<TupleKeyBuilder>`,
+///               `From<Vec<u8>>` + `TupleKey::append`.
+/// Every variant must be byte-identical to `want` (the from-scratch encoding the order and
+/// extension oracles are evaluated on), so keys made by these calls obey the same laws.  Returns
+/// the key built by the first variant, or `None` after recording a failure.
+fn extend_via_apis(fmt: Fmt, s: &[Col], full: &[Val], n: usize, m: usize, want: &[u8], o: &mut Outcome) -> Option<Vec<u8>> {
+    let mut built: Vec<(&'static str, Vec<u8>)> = vec![];
+    match fmt {
+        Fmt::Tk1 => {
+            let prefix = tk1_encode(&s[..n], &full[..n]);
+            // whole suffix appended in one call
+            let mut k = prefix.clone();
+            let mut suffix = tk1_encode(&s[n..m], &full[n..m]);
+            k.append(&mut suffix);
+            if !suffix.is_empty() {
+                o.fail("extension:tuple_key:api-append-leaves-other-non-empty", format!("TupleKey::append left {} in the appended key (documented by the crate's tests: the other key is drained)", hex(suffix.as_bytes())));
+                return None;
+            }
+            if k.len() != k.as_bytes().len() {
+                o.fail("extension:tuple_key:api-len", format!("TupleKey::len() = {} but as_bytes() has {} bytes", k.len(), k.as_bytes().len()));
+                return None;
+            }
+            built.push(("append", k.as_bytes().to_vec()));
+            // one element per append, onto a key re-wrapped from its bytes
+            let mut k = tuple_key::TupleKey::from(prefix.as_bytes());
+            for i in n..m {
+                let mut one = tk1_encode(&s[i..i + 1], &full[i..i + 1]);
+                k.append(&mut one);
+            }
+            built.push(("append-elementwise", k.as_bytes().to_vec()));
+            // extend / extend_with_key on the existing key
+            let mut k = prefix.clone();
+            tk1_extend(&mut k, &s[n..m], &full[n..m]);
+            built.push(("extend-with-key", k.as_bytes().to_vec()));
+            // appending nothing changes nothing
+            let mut k2 = k.clone();
+            k2.append(&mut tuple_key::TupleKey::default());
+            built.push(("append-empty", k2.as_bytes().to_vec()));
+        }
+        Fmt::Tk2 => {
+            let prefix = tuple_key2::TupleKey::from_bytes(tk2_encode(&full[..n]));
+            let suffix = tuple_key2::TupleKey::from_bytes(tk2_encode(&full[n..m]));
+            let b = tk2_push(tuple_key2::TupleKey::builder().extend(&prefix), &full[n..m]);
+            if b.as_bytes() != want {
+                built.push(("builder-extend:as_bytes", b.as_bytes().to_vec()));
+            }
+            built.push(("builder-extend", b.finish().into_bytes()));
+            built.push(("builder-tuple_key", tuple_key2::TupleKey::builder().tuple_key(&prefix).tuple_key(&suffix).build().into_bytes()));
+            let b = tk2_push(tuple_key2::TupleKey::builder_with_capacity(want.len()).tuple_key(&prefix), &full[n..m]);
+            built.push(("builder_with_capacity+From<TupleKeyBuilder>", tuple_key2::TupleKey::from(b).into_bytes()));
+            let b = tuple_key2::TupleKeyBuilder::with_capacity(1).extend(&tuple_key2::TupleKey::default()).extend(&prefix).extend(&suffix);
+            built.push(("with_capacity+extend-extend", b.build().into_bytes()));
+            let mut k = tuple_key2::TupleKey::from(prefix.as_bytes().to_vec());
+            k.append(&suffix);
+            if k.len() != k.as_bytes().len() || k.is_empty() != k.as_bytes().is_empty() {
+                o.fail("extension:tuple_key2:api-len", format!("TupleKey::len()/is_empty() disagree with as_bytes() for {}", hex(k.as_bytes())));
+                return None;
+            }
+            built.push(("From<Vec<u8>>+append", k.into_bytes()));
+        }
+    }
+    for (name, got) in built.iter() {
+        if got != want {
+            o.fail(
+                format!("extension:{}:api-{name}-differs", fmt.krate()),
+                format!(
+                    "schema {} t={} extended by u={} through {name}: built {} but the from-scratch encoding of t++u is {}",
+                    show_schema(fmt, &s[..m]), show(&full[..n]), show(&full[n..m]), hex(got), hex(want)
+                ),
+            );
+            return None;
+        }
+    }
+    Some(built.swap_remove(0).1)
+}
+
 /////////////////////////////////////////// extension part /////////////////////////////////////////
 
 /// `t = a[..n]`, `u = a[n..]`, `t' = b[..n]`, `u' = b[n..]`.
@@ -888,6 +1035,11 @@ impl Property for Extension {
             let et = encode(fmt, s, &full[..n]);
             for m in n + 1..=len {
                 let em = encode(fmt, s, &full[..m]);
+                // the same key built through the extension APIs is byte-identical ...
+                let Some(em) = extend_via_apis(fmt, s, full, n, m, &em, &mut o) else {
+                    return o;
+                };
+                // ... and (so) obeys the extension law
                 if !(et < em) || !em.starts_with(&et) {
                     o.fail(
                         format!("extension:{}:t-not-before-t++u", fmt.krate()),
@@ -899,6 +1051,7 @@ impl Property for Extension {
         }
         if n < len {
             o.label(format!("u-elements:{}", (len - n).min(3)));
+            o.label(if n == 0 { "api-extended:from-empty-prefix" } else { "api-extended:from-non-empty-prefix" });
         }
         // (2) every extension of the smaller tuple sorts before the larger tuple and its extensions
         let (ord, d) = cmp_tuple(&s[..n], &c.a[..n], &c.b[..n]);
@@ -918,7 +1071,12 @@ impl Property for Extension {
         o.nontrivial = n < len && interesting_diff(d, &lo[d], &hi[d]);
         let ehi = encode(fmt, s, &hi[..n]);
         for m in n..=len {
+            // t ++ u[..m-n] built by extending enc(t) through the APIs (identical to the from-scratch
+            // encoding, asserted in (1) and again here)
             let elo = encode(fmt, s, &lo[..m]);
+            let Some(elo) = extend_via_apis(fmt, s, lo, n, m, &elo, &mut o) else {
+                return o;
+            };
             let what = format!("t++u ({m} of {len} elements) vs t' ({n} elements)");
             if !judge_order(fmt, ctx, "extension", &what, &s[..n], &lo[..n], &hi[..n], &elo, &ehi, &mut o) {
                 return o;
@@ -928,6 +1086,68 @@ impl Property for Extension {
         judge_order(fmt, ctx, "extension", "t++u vs t'++u'", &s[..n], &lo[..n], &hi[..n], &elo, &ehi, &mut o);
         o
     }
+}
+
+/// tuple_key2 integer families: the narrow builders are documented as "using the compact
+/// (un)signed integer family", i.e. the encoding of the widened value, and the narrow parsers as
+/// "the same errors as u64/i64 and ValueOutOfRange when the decoded value exceeds the type".  For a
+/// value `x` of type `ty`: (a) every builder of the family whose type holds `x` produces the same
+/// bytes; (b) every parser of the family returns `x` when it fits and `ValueOutOfRange{target}`
+/// when it does not, consuming the whole element in the first case; (c) the parsers of the other
+/// family answer `InvalidIntegerTag` (documented: "when the next byte is not a(n) (un)signed
+/// integer tag").
+fn tk2_width_check(ty: Ty, x: i128, o: &mut Outcome) -> bool {
+    const UNSIGNED: [Ty; 4] = [Ty::U8, Ty::U16, Ty::U32, Ty::U64];
+    const SIGNED: [Ty; 4] = [Ty::I8, Ty::I16, Ty::I32, Ty::I64];
+    let (family, other) = if UNSIGNED.contains(&ty) { (UNSIGNED, SIGNED) } else { (SIGNED, UNSIGNED) };
+    let enc = tk2_encode(&[int_val(ty, x)]);
+    for t in family {
+        let (lo, hi) = int_range(t);
+        let fits = x >= lo && x <= hi;
+        let col = [Col { ty: t, desc: false, field: 0 }];
+        let (got, res, consumed) = tk2_decode(&col, &enc);
+        if fits {
+            let same = tk2_encode(&[int_val(t, x)]);
+            if same != enc {
+                o.fail(
+                    format!("roundtrip:tuple_key2:width:{}-builder-differs-from-{}", t.name(), ty.name()),
+                    format!("{x} encodes as {} through the {} builder but as {} through the {} builder", hex(&same), t.name(), hex(&enc), ty.name()),
+                );
+                return false;
+            }
+            if res.is_err() || got != [int_val(t, x)] || consumed != enc.len() {
+                o.fail(
+                    format!("roundtrip:tuple_key2:width:{}-parser-on-{}", t.name(), ty.name()),
+                    format!("{x} built as {} ({}) parsed as {} gives {} / {res:?} (consumed {consumed})", ty.name(), hex(&enc), t.name(), show(&got)),
+                );
+                return false;
+            }
+            o.label("width:narrower-or-wider-parser-accepts");
+        } else {
+            let want = tuple_key2::Error::ValueOutOfRange { target: t.name() };
+            if !got.is_empty() || res != Err(want.clone()) {
+                o.fail(
+                    format!("roundtrip:tuple_key2:width:{}-parser-must-reject", t.name()),
+                    format!("{x} built as {} ({}) parsed as {} gives {} / {res:?}; documented: {want:?}", ty.name(), hex(&enc), t.name(), show(&got)),
+                );
+                return false;
+            }
+            o.label(format!("width:out-of-range-for-{}", t.name()));
+        }
+    }
+    for t in other {
+        let col = [Col { ty: t, desc: false, field: 0 }];
+        let (got, res, _) = tk2_decode(&col, &enc);
+        let want = tuple_key2::Error::InvalidIntegerTag { tag: enc[0] };
+        if !got.is_empty() || res != Err(want.clone()) {
+            o.fail(
+                format!("roundtrip:tuple_key2:width:{}-parser-accepts-other-family", t.name()),
+                format!("{x} built as {} ({}) parsed as {} gives {} / {res:?}; documented: {want:?}", ty.name(), hex(&enc), t.name(), show(&got)),
+            );
+            return false;
+        }
+    }
+    true
 }
 
 /////////////////////////////////////////// round-trip part ////////////////////////////////////////
@@ -1076,6 +1296,14 @@ impl Property for Roundtrip {
                 if got != c.t || consumed != bytes.len() {
                     o.fail("roundtrip:tuple_key2:value-differs", format!("schema {} t={} decoded as {} from {}", show_schema(fmt, &c.schema), show(&c.t), show(&got), hex(&bytes)));
                     return o;
+                }
+                // every integer element: all builders / parsers of its family, and the other family
+                for v in c.t.iter() {
+                    if let Some(x) = v.int() {
+                        if !tk2_width_check(v.ty(), x, &mut o) {
+                            return o;
+                        }
+                    }
                 }
                 // concatenation of the encodings of a split == the encoding of the whole
                 for cut in 0..=c.t.len() {
@@ -1293,8 +1521,9 @@ struct D2 {
     s: String,
     #[tuple_key(1024)]
     u: (),
-    #[tuple_key(7)]
+    // attribute order swapped on purpose: `#[reverse]` before `#[tuple_key(n)]`
     #[reverse]
+    #[tuple_key(7)]
     x: u64,
     #[tuple_key(3)]
     y: i32,
@@ -1429,6 +1658,194 @@ impl Property for Derive {
 }
 
 
+//////////////////////////////////////// derive-decode part ////////////////////////////////////////
+
+/// What the derived `TryFrom<TupleKey>` of struct `which` makes of `bytes`: `Err(text)`, or the
+/// accepted value as a tuple, its re-encoding through the derived `Into<TupleKey>`, and what the
+/// derived `TryFrom` makes of that re-encoding.
+#[allow(clippy::type_complexity)]
+fn derive_decode(which: usize, bytes: &[u8]) -> Option<Result<(Vec<Val>, Vec<u8>, Result<Vec<Val>, String>), String>> {
+    fn dd<T: tuple_key::TypedTupleKey + Clone>(bytes: &[u8], back: impl Fn(T) -> Vec<Val>) -> Result<(Vec<Val>, Vec<u8>, Result<Vec<Val>, String>), String>
+    where
+        <T as TryFrom<tuple_key::TupleKey>>::Error: std::fmt::Debug,
+    {
+        match T::try_from(tuple_key::TupleKey::from(bytes)) {
+            Err(e) => Err(format!("{e:?}")),
+            Ok(v) => {
+                let vals = back(v.clone());
+                let again: tuple_key::TupleKey = v.into();
+                let b2 = again.as_bytes().to_vec();
+                Ok((vals, b2, T::try_from(again).map(&back).map_err(|e| format!("{e:?}"))))
+            }
+        }
+    }
+    Some(match which {
+        0 => dd(bytes, |d: D1| vec![Val::Str(d.name), Val::I64(d.ts), Val::U32(d.n)]),
+        1 => dd(bytes, |d: D2| vec![Val::Str(d.s), Val::Unit, Val::U64(d.x), Val::I32(d.y)]),
+        2 => dd(bytes, |d: D3| vec![Val::I32(d.a), Val::U32(d.b), Val::I64(d.c), Val::U64(d.d), Val::Str(d.e)]),
+        3 => dd(bytes, |d: D4| vec![Val::Unit, Val::U32(d.x)]),
+        _ => return None,
+    })
+}
+
+/// The columns the derived code reads and writes: as declared, except that unit fields are always
+/// tagged Forward (`Into` writes them with `TupleKey::extend`; see R-N2).
+fn derive_effective_schema(which: usize) -> Vec<Col> {
+    D_SCHEMAS[which].iter().map(|c| if c.ty == Ty::Unit { Col { desc: false, ..*c } } else { *c }).collect()
+}
+
+#[derive(Clone, Debug, Serialize, Deserialize)]
+struct DeriveDecCase {
+    which: usize,
+    /// a valid value of struct `which`; the bytes start as its derived encoding unless `raw` is used
+    base: Vec<Val>,
+    /// further well-formed elements appended after the struct's last field
+    tail_schema: Vec<Col>,
+    tail: Vec<Val>,
+    raw: Option<Vec<u8>>,
+    muts: Vec<Mutn>,
+}
+
+struct DeriveDecode;
+
+impl Property for DeriveDecode {
+    type Case = DeriveDecCase;
+    fn name(&self) -> String {
+        "tk1-derive-decode".into()
+    }
+    fn cases(&self, tier: Tier) -> u64 {
+        tier.pick(10_000, 250_000)
+    }
+    fn strategy(&self, _: &Ctx) -> BoxedStrategy<DeriveDecCase> {
+        let tail = prop_oneof![
+            3 => Just((vec![], vec![])).boxed(),
+            1 => schema_strategy(Fmt::Tk1, 1, 2)
+                .prop_flat_map(|schema| {
+                    let vals = long_values(&schema);
+                    (Just(schema), vals)
+                })
+                .boxed(),
+        ];
+        ((0usize..D_SCHEMAS.len()), tail)
+            .prop_flat_map(|(which, (tail_schema, tail))| {
+                (
+                    Just(which),
+                    long_values(D_SCHEMAS[which]),
+                    Just(tail_schema),
+                    Just(tail),
+                    prop::option::weighted(0.15, vec(special_byte(), 0..40)),
+                    prop_oneof![1 => Just(vec![]), 5 => vec(mut_strategy(), 1..=3)],
+                )
+            })
+            .prop_map(|(which, base, tail_schema, tail, raw, muts)| DeriveDecCase { which, base, tail_schema, tail, raw, muts })
+            .boxed()
+    }
+    fn run(&self, _: &Ctx, c: &DeriveDecCase) -> Outcome {
+        let mut o = Outcome::pass();
+        let fmt = Fmt::Tk1;
+        if c.which >= D_SCHEMAS.len() || !conforms(fmt, &c.tail_schema, &c.tail) || c.tail.len() != c.tail_schema.len() {
+            o.inconclusive = true;
+            o.label("malformed-case");
+            return o;
+        }
+        let Some((valid, _)) = derive_roundtrip(c.which, &c.base) else {
+            o.inconclusive = true;
+            o.label("malformed-case");
+            return o;
+        };
+        o.label(format!("struct:D{}", c.which + 1));
+        let eff = derive_effective_schema(c.which);
+        let start = match &c.raw {
+            Some(r) => r.clone(),
+            None => {
+                let mut b = valid.clone();
+                b.extend_from_slice(tk1_encode(&c.tail_schema, &c.tail).as_bytes());
+                b
+            }
+        };
+        let bytes = apply_muts(start.clone(), &c.muts);
+        let undamaged = c.raw.is_none() && bytes == start;
+        o.label(match (&c.raw, undamaged, c.tail.is_empty()) {
+            (Some(_), _, _) => "input:arbitrary-bytes",
+            (None, true, true) => "input:valid-encoding",
+            (None, true, false) => "input:valid-encoding-plus-trailing-elements",
+            (None, false, true) => "input:damaged-valid-encoding",
+            (None, false, false) => "input:damaged-valid-encoding-plus-trailing-elements",
+        });
+        // the hand-driven parser over the same columns, as the reference for what the bytes hold
+        let key = tuple_key::TupleKey::from(&bytes[..]);
+        let (got, res) = tk1_decode(&eff, &key, false);
+        let all_parsed = got.len() == eff.len();
+        o.nontrivial = !bytes.is_empty() && (c.raw.is_none() || !got.is_empty());
+        // (a panic inside the derived code is caught by the runner and reported as panic@<site>)
+        let Some(derived) = derive_decode(c.which, &bytes) else {
+            o.inconclusive = true;
+            return o;
+        };
+        let ctxt = |what: &str| format!("struct D{} on {} ({what}); hand-driven parser over the same columns: {} / {res:?}", c.which + 1, hex(&bytes), show(&got));
+        match &derived {
+            Ok((vals, again_bytes, again)) => {
+                o.label("result:ok");
+                if !all_parsed || *vals != got {
+                    o.fail(
+                        "decode:tuple_key_derive:accepts-what-the-parser-does-not",
+                        ctxt(&format!("derived TryFrom returned {}", show(vals))),
+                    );
+                    return o;
+                }
+                // the accepted value is a proper value: its own encoding is the from-scratch encoding
+                // of its fields and parses back to it
+                let scratch = tk1_encode(&eff, vals);
+                if again_bytes != scratch.as_bytes() || again.as_ref() != Ok(vals) {
+                    o.fail(
+                        "decode:tuple_key_derive:accepted-value-does-not-re-encode",
+                        ctxt(&format!("accepted {} re-encodes as {} (from scratch: {}) and that parses as {again:?}", show(vals), hex(again_bytes), hex(scratch.as_bytes()))),
+                    );
+                    return o;
+                }
+                if res.is_err() {
+                    // Nothing documents that the derived TryFrom consumes the whole key (the generated
+                    // code never looks past the last field), so this is recorded, not asserted.
+                    o.label("ok:trailing-elements-accepted(undocumented,not-asserted)");
+                }
+                if !bytes.starts_with(again_bytes) {
+                    o.label("ok:accepted-input-is-not-the-canonical-encoding");
+                }
+                if !undamaged {
+                    o.label("ok:from-damaged-or-arbitrary-input");
+                }
+            }
+            Err(e) => {
+                o.label(format!("result:err-after-{}-elements", got.len().min(4)));
+                if all_parsed && res.is_ok() {
+                    o.fail(
+                        "decode:tuple_key_derive:rejects-a-key-holding-exactly-its-fields",
+                        ctxt(&format!("derived TryFrom returned Err({e})")),
+                    );
+                    return o;
+                }
+                if all_parsed {
+                    o.label("err:only-because-of-trailing-elements");
+                }
+            }
+        }
+        if undamaged {
+            match &derived {
+                Ok((vals, _, _)) if *vals == c.base => {}
+                Ok((vals, _, _)) => {
+                    o.fail("decode:tuple_key_derive:valid-encoding-decoded-differently", ctxt(&format!("value {} decoded as {}", show(&c.base), show(vals))));
+                }
+                Err(e) if c.tail.is_empty() => {
+                    o.fail("decode:tuple_key_derive:valid-encoding-rejected", ctxt(&format!("value {}: Err({e})", show(&c.base))));
+                }
+                Err(_) => {}
+            }
+        }
+        o
+    }
+}
+
+
 ////////////////////////////////// exhaustive R-N characterisation /////////////////////////////////
 
 /// Bounded-exhaustive validation of the R-N trigger predicate: every ordered pair
@@ -1542,6 +1959,7 @@ fn main() {
     .pbt(Roundtrip { fmt: Fmt::Tk1 })
     .pbt(Decode { fmt: Fmt::Tk1 })
     .pbt(Derive)
+    .pbt(DeriveDecode)
     .pbt(Order { fmt: Fmt::Tk2, desc_string_focus: false })
     .pbt(Extension { fmt: Fmt::Tk2 })
     .pbt(Roundtrip { fmt: Fmt::Tk2 })
